@@ -195,10 +195,13 @@ Proof.
     destruct (issue _ _ _ _ _); exact H.
   - cbn. eapply once_inv_tbl; [apply tbl_set_cl; reflexivity|exact I].
   - cbn. eapply once_inv_tbl; [|exact I]. repeat split.
-  - cbn. eapply once_inv_tbl; [apply tbl_set_sv|exact I].
-  - pose proof (tbl_srv_step st c) as H. destruct (srv_step st c) as [st1 t]. cbn in *.
-    eapply once_inv_tbl; [exact H|exact I].
+  - cbn. eapply once_inv_tbl; [|exact I]. repeat split.
+  - pose proof (tbl_srv_step (wake_up st) c) as H. destruct (srv_step (wake_up st) c) as [st1 t]. cbn in *.
+    eapply once_inv_tbl; [exact H|]. eapply once_inv_tbl; [|exact I]. repeat split.
   - apply once_cli_step; exact I.
+  - cbn. eapply once_inv_tbl; [|exact I]. repeat split.
+  - pose proof (tbl_srv_step st c) as H. destruct (srv_step st c) as [st1 t]. cbn in *.
+    eapply once_inv_tbl; [|exact I]. eapply tbl_trans; [|exact H]. repeat split.
 Qed.
 
 Lemma once_init n : once_inv (init_state n).
